@@ -67,10 +67,10 @@ META.update({
         note="Fitted-alpha invariance under column permutation is decided by the fit engine once registered.", ref="DESIGN.md §5 C07"),
     "C10": dict(technique=E1 + "; invariant = the map alpha -> observable state is single-valued over all histories and equals a freshly built problem bitwise; queries are self-loops; failed updates leave nothing exposed",
         text="Every state is approached through every history up to depth 3 (quick) / 4 (thorough) over alphabets that include rank-deficient, extreme and model-rejected parameter vectors.",
-        note="The uninitialised-memory clause is decided by the heap engine once registered.", ref="DESIGN.md §5 C10"),
+        note="Uninitialised memory: the binary's global allocator poisons fresh and freed memory; every first-visited state is re-observed under four poison bytes and against a fresh problem. Thorough tier adds one free-running execution under miri (uninitialised reads and data races are UB reports) - an interpreter of one execution, used as an additional oracle only.", ref="DESIGN.md §5 C10, §12.1"),
     "C11": dict(technique="stateless exhaustive schedule exploration of the real parallel Jacobian (shuttle DFS over a shim rayon-core: all steal maps x all interleavings), plus lock-step explicit-state exploration parallel||sequential under real rayon, plus whole fits under every pool size 1..16",
         text="(a) every schedule of rayon's real iterator plumbing + nalgebra's column producer + varpro's closure yields the sequential Jacobian bitwise, evaluates every derivative exactly once, and yields None when any derivative fails; all P! evaluation orders are reached (non-vacuity). (b) every scenario of C01-C03 is stepped in both flavours through every history with bitwise-equal observations. (c) parallel fits under pools of 1..16 workers equal the sequential fit bitwise; into_sequential preserves the state.",
-        note="Interleavings at derivative-evaluation granularity; rayon's own deque/sleep protocol is replaced by the shim, not verified; P <= 5 columns.", ref="DESIGN.md §5 C11, appendix A"),
+        note="Interleavings at derivative-evaluation granularity; rayon's own deque/sleep protocol is replaced by the shim, not verified; P <= 5 columns. The atomicity assumption (tasks are data-race free) is discharged in the thorough tier by a separate free-running pass of the same bodies on real rayon under miri's race detector.", ref="DESIGN.md §5 C11, appendix A, §12.1"),
 })
 
 META.update({
@@ -106,6 +106,7 @@ NA = {
 }
 
 ENGINES = [
+    dict(name="racecheck", path="harness/src/bin/racecheck.rs", serves_properties=["C10", "C11"], kind_free_text="thorough tier only: free-running real-rayon execution under miri (data-race and uninitialised-read detector); additional oracle, not an enumeration"),
     dict(name="sched", path="harness-sched/src/bin/sched.rs", serves_properties=["C11"], kind_free_text="stateless exhaustive schedule exploration (shuttle DFS) of real rayon/nalgebra/varpro over a shim rayon-core (harness-sched/shim/rayon-core)"),
     dict(name="fitenv", path="harness/src/bin/fitenv.rs", serves_properties=["C04"], kind_free_text="deviation-bounded DFS over scripted model answers; every leaf a real fit"),
     dict(name="fitgrid", path="harness/src/bin/fitgrid.rs", serves_properties=["C02", "C04", "C05"], kind_free_text="exhaustive product grids of real fits vs reference computations"),
